@@ -9,5 +9,6 @@ ProgramsQuick == {<<"Start", "Stop">>, <<"Start", "Restart">>, <<"Start", "Resta
 ProgramsThorough == ProgramsQuick \cup {<<"Start", "Restart", "Restart">>, <<"Start", "Stop", "Start", "Stop">>, <<"Start", "Restart", "Restart", "Stop">>,
                                         <<"Start", "Stop", "Start", "Restart", "Stop">>, <<"Start", "Restart", "Stop", "Start", "Restart", "Stop">>}
 ProgramRestart == {<<"Start", "Restart">>}
-Export == (~ENABLED Next) => PrintT(<<"SCENARIO", ToJson([prog |-> prog, script |-> script])>>)
+ProgramsTLS == {<<"Start", "Stop">>, <<"Start", "Restart">>}
+Export == (~ENABLED Next) => PrintT(<<"SCENARIO", ToJson([prog |-> prog, script |-> script, kinds |-> KindSeq])>>)
 =============================================================================
